@@ -172,7 +172,9 @@ func c18Scenario(s *sc) {
 		}
 		nRef++
 	}
-	if d := refused() - r0; d != float64(nRef) {
+	// every refusal is reported: the counter grows at least by the refusals seen (a transparent client-side retry of
+	// an idempotent GET could add more; not guaranteed either way, so only "fewer" is judged)
+	if d := refused() - r0; d < float64(nRef) {
 		s.violate("refused-get-not-counted", "%d GETs were refused with 503, alertmanager_http_concurrency_limit_exceeded_total grew by %v", nRef, d)
 		return
 	}
